@@ -64,16 +64,16 @@ theorem ocsp_CheckStatus_conc :
     return of `certResults` — Model.Conc (`Conc.step`) -/
 theorem revocation_ValidateContext_skel :
     Shape.revocation_ValidateContext_skel =
-      ["chan panicChan cap=len(certChain)", "defer close(panicChan)", "loop i over certChain[:len(certChain)-1]",
-       "add1; go {defer wg.Done; defer recover-and-send} writes{certResults[param]} params(i,cert) args(i,cert)",
-       "add1; go {defer wg.Done; defer recover-and-send} writes{certResults[param]} params(i,cert) args(i,cert)",
-       "main-store certResults[i]", "end-loop", "store certResults[len(certChain) - 1]", "wait",
+      ["chan panicChan cap=len(certChain)", "defer close(panicChan)", "loop over certChain[:len(certChain)-1]",
+       "add1; go {defer wg.Done; defer recover-and-send} writes{certResults[param]} params(p0,p1) args(loopkey,loopval)",
+       "add1; go {defer wg.Done; defer recover-and-send} writes{certResults[param]} params(p0,p1) args(loopkey,loopval)",
+       "main-store certResults[loopkey]", "end-loop", "store certResults[len(certChain) - 1]", "wait",
        "select case{p := <-panicChan => panic(p);} default", "return certResults,nil"] := rfl
 
 theorem ocsp_CheckStatus_skel :
     Shape.ocsp_CheckStatus_skel =
-      ["chan panicChan cap=len(opts.CertChain)", "defer close(panicChan)", "loop i over opts.CertChain[:len(opts.CertChain)-1]",
-       "add1; go {defer wg.Done; defer recover-and-send} writes{certResults[param]} params(i,cert) args(i,cert)",
+      ["chan panicChan cap=len(opts.CertChain)", "defer close(panicChan)", "loop over opts.CertChain[:len(opts.CertChain)-1]",
+       "add1; go {defer wg.Done; defer recover-and-send} writes{certResults[param]} params(p0,p1) args(loopkey,loopval)",
        "end-loop", "store certResults[len(opts.CertChain) - 1]", "wait",
        "select case{p := <-panicChan => panic(p);} default", "return certResults,nil"] := rfl
 
